@@ -142,6 +142,25 @@ class Driver(object):
         self.undo = simkernel.install(self.kernel)
         opts = ServerOptions()
         opts.logger = RecLogger(self._logged)
+        if self.script.get('mainlog') and self.script.get('logdir'):
+            # the REAL activity logger (rotating file handler with the script's maxbytes/backups) plus a recording
+            # handler: an exception raised by the logger itself is then an exception of the main loop
+            from supervisor import loggers
+            ml = self.script['mainlog']
+            lg = loggers.getLogger(loggers.LevelsByName.INFO)
+            loggers.handle_file(lg, os.path.join(self.script['logdir'], 'supervisord.log'),
+                                '%(asctime)s %(levelname)s %(message)s\n', rotating=bool(ml.get('maxbytes', 0)),
+                                maxbytes=ml.get('maxbytes', 0), backups=ml.get('backups', 0))
+            sink = self._logged
+
+            class _Rec(loggers.Handler):
+                def emit(self, record):
+                    d = record.asdict()
+                    sink(d['levelname'], d['message'])
+            h = _Rec()
+            h.setLevel(lg.level)
+            lg.addHandler(h)
+            opts.logger = lg
         import supervisor.poller as spoller
         self._saved_select = (spoller, spoller.select)
         spoller.select = FakeSelect(self)
@@ -167,7 +186,7 @@ class Driver(object):
                 startsecs=c['startsecs'], startretries=c['startretries'],
                 stdout_logfile=lf('out'), stdout_capture_maxbytes=cap, stdout_events_enabled=bool(c.get('events', 0)),
                 stdout_syslog=False, stdout_logfile_backups=c.get('backups', 0), stdout_logfile_maxbytes=c.get('maxbytes', 0),
-                stderr_logfile=lf('err'), stderr_capture_maxbytes=cap, stderr_logfile_backups=0, stderr_logfile_maxbytes=0,
+                stderr_logfile=lf('err'), stderr_capture_maxbytes=cap, stderr_logfile_backups=c.get('backups', 0), stderr_logfile_maxbytes=c.get('maxbytes', 0),
                 stderr_events_enabled=bool(c.get('events', 0)), stderr_syslog=False,
                 stopsignal=c['stopsignal'], stopwaitsecs=c['stopwaitsecs'], stopasgroup=bool(c['stopasgroup']),
                 killasgroup=bool(c['killasgroup']), exitcodes=list(c['exitcodes']), redirect_stderr=False)
@@ -394,6 +413,8 @@ class Driver(object):
             k.child_exit(a[1], a[2])
         elif kind == 'unknown':
             k.unknown_zombie(a[1])
+        elif kind == 'recycled':
+            k.recycled_zombie(a[1], a[2])     # monitor-judged scripts only: an unknown child with a recycled pid
         elif kind == 'jobstop':
             k.child_jobstop(a[1])       # monitor-judged scripts only: nothing may happen to the process
         elif kind == 'signal':
